@@ -108,7 +108,7 @@ Proof.
   - (* LClose *)
     unfold step, cstep in H.
     destruct (nth_error (prods s) p) as [[r o]|] eqn:E; [|discriminate].
-    destruct r; [|discriminate]. destruct o; [|discriminate]. inversion H; subst; clear H.
+    destruct o; [|discriminate]. inversion H; subst; clear H.
     intro p'. specialize (I p'). unfold rem_of in *; simpl. erewrite rem_at_upd by eauto. simpl.
     destruct (Nat.eqb_spec p p'); auto. subst. rewrite <- I. unfold rem_at. rewrite E. reflexivity.
 Qed.
